@@ -61,6 +61,16 @@ func (s *ExpSession) Take(n int, timeout time.Duration) ([]byte, bool) {
 	return s.UDP.TakeOne(timeout)
 }
 
+// TakeMsg returns (and removes from the record) the next message: over TCP the stream is cut at the
+// message's own length field (hint = what SendSet reported, see ConnRec.TakeFramed), over UDP it is
+// the next datagram.
+func (s *ExpSession) TakeMsg(hint int, timeout time.Duration) ([]byte, bool) {
+	if s.Proto == "tcp" {
+		return s.Conn.TakeFramed(hint, timeout)
+	}
+	return s.UDP.TakeOne(timeout)
+}
+
 // Pending returns what arrived and has not been taken (TCP: bytes; UDP: datagrams flattened).
 func (s *ExpSession) Pending() []byte {
 	if s.Proto == "tcp" {
